@@ -1,5 +1,433 @@
-use crate::common::Ctx;
-pub fn run(_ctx: &Ctx, _replay: Option<&serde_json::Value>) -> i32 {
-    eprintln!("not implemented");
-    2
+//! C09 — formatting never loses or reorders comments.
+//!
+//! Base programs are line templates with annotated comment slots (end of a line / own line below
+//! a line). Every slot alone, every pair and all slots at once are filled with unique comment
+//! texts, the program is formatted at every width up to its saturation bound through the real
+//! wasm driver (native shim) and through `blots --format`, and the comment sequence of the output
+//! (independent quote-aware scan) must equal that of the input.
+
+use crate::c07::fmt_lib;
+use crate::common::*;
+use crate::parse::*;
+use crate::proc::run_cli_format;
+use serde_json::{Value as J, json};
+
+#[derive(Clone, Copy, PartialEq, Eq, Debug)]
+enum K {
+    /// between / after statements, end of a statement line
+    Stmt,
+    List,
+    Record,
+    Do,
+    /// positions where the grammar swallows the comment in a silent NEWLINE (no AST slot)
+    Silent(&'static str),
+    /// inside an otherwise empty list / record
+    Empty(&'static str),
+}
+
+impl K {
+    fn class(&self) -> String {
+        match self {
+            K::Stmt => "statement".into(),
+            K::List => "list".into(),
+            K::Record => "record".into(),
+            K::Do => "do-block".into(),
+            K::Silent(s) => format!("silent-newline:{}", s),
+            K::Empty(s) => format!("empty-container:{}", s),
+        }
+    }
+    fn has_slot(&self) -> bool {
+        matches!(self, K::Stmt | K::List | K::Record | K::Do)
+    }
+}
+
+struct Line {
+    text: &'static str,
+    eol: Option<K>,
+    below: Option<K>,
+}
+
+fn l(text: &'static str, eol: Option<K>, below: Option<K>) -> Line {
+    Line { text, eol, below }
+}
+
+struct Template {
+    name: &'static str,
+    /// own-line comment admitted above the first line
+    above: bool,
+    lines: Vec<Line>,
+}
+
+fn templates() -> Vec<Template> {
+    use K::*;
+    let s = Some;
+    vec![
+        Template {
+            name: "statements",
+            above: true,
+            lines: vec![l("x = 1", s(Stmt), s(Stmt)), l("y = [1, 2]", s(Stmt), s(Stmt)), l("output z = x + y", s(Stmt), s(Stmt))],
+        },
+        Template {
+            name: "list-trailing-comma",
+            above: true,
+            lines: vec![l("a = [", s(List), s(List)), l("  1,", s(List), s(List)), l("  2,", s(List), s(List)), l("]", s(Stmt), s(Stmt))],
+        },
+        Template {
+            name: "list-no-trailing-comma",
+            above: false,
+            lines: vec![l("a = [", s(List), s(List)), l("  1,", s(List), s(List)), l("  2", s(List), s(List)), l("]", s(Stmt), None)],
+        },
+        Template {
+            name: "record",
+            above: false,
+            lines: vec![l("r = {", s(Record), s(Record)), l("  k: 1,", s(Record), s(Record)), l("  j,", s(Record), s(Record)), l("  ...m", s(Record), s(Record)), l("}", s(Stmt), s(Stmt))],
+        },
+        Template {
+            name: "do-block",
+            above: false,
+            lines: vec![
+                l("d = do {", s(Do), s(Do)),
+                l("  t = 1", s(Do), s(Do)),
+                l("  u = t + 1", s(Do), s(Do)),
+                l("  return u", None, None),
+                l("}", s(Stmt), s(Stmt)),
+            ],
+        },
+        Template {
+            name: "nested",
+            above: true,
+            lines: vec![
+                l("cfg = {", s(Record), s(Record)),
+                l("  items: [", s(List), s(List)),
+                l("    {a: 1},", s(List), s(List)),
+                l("    [2, 3],", s(List), s(List)),
+                l("  ],", s(Record), s(Record)),
+                l("  run: x => do {", s(Do), s(Do)),
+                l("    y = [", s(List), s(List)),
+                l("      x,", s(List), s(List)),
+                l("    ]", s(Do), s(Do)),
+                l("    return y", None, None),
+                l("  },", s(Record), s(Record)),
+                l("}", s(Stmt), s(Stmt)),
+                l("output cfg", s(Stmt), s(Stmt)),
+            ],
+        },
+        Template {
+            name: "list-in-call-and-via",
+            above: false,
+            lines: vec![
+                l("w = sum([", s(List), s(List)),
+                l("  1,", s(List), s(List)),
+                l("]) + ([", s(List), s(List)),
+                l("  2,", s(List), s(List)),
+                l("] via (v => v * 2) into sum)", s(Stmt), s(Stmt)),
+            ],
+        },
+        Template {
+            name: "silent-infix",
+            above: false,
+            lines: vec![l("s = 1 +", s(Silent("infix-continuation")), s(Silent("infix-continuation"))), l("  2", s(Stmt), s(Stmt))],
+        },
+        Template {
+            name: "silent-infix-leading-operator",
+            above: false,
+            lines: vec![l("s = 1", s(Silent("infix-continuation")), s(Silent("infix-continuation"))), l("  + 2", s(Stmt), s(Stmt))],
+        },
+        Template {
+            name: "silent-call",
+            above: false,
+            lines: vec![
+                l("c = f(", s(Silent("call-arguments")), s(Silent("call-arguments"))),
+                l("  1,", s(Silent("call-arguments")), s(Silent("call-arguments"))),
+                l("  2", s(Silent("call-arguments")), s(Silent("call-arguments"))),
+                l(")", s(Stmt), s(Stmt)),
+            ],
+        },
+        Template {
+            name: "silent-arrow",
+            above: false,
+            lines: vec![l("g = x =>", s(Silent("after-arrow")), s(Silent("after-arrow"))), l("  x + 1", s(Stmt), s(Stmt))],
+        },
+        Template {
+            name: "silent-conditional",
+            above: false,
+            lines: vec![
+                l("k = if x", s(Silent("conditional")), s(Silent("conditional"))),
+                l("  then 1", s(Silent("conditional")), s(Silent("conditional"))),
+                l("  else 2", s(Stmt), s(Stmt)),
+            ],
+        },
+        Template {
+            name: "silent-parens",
+            above: false,
+            lines: vec![l("p = (", s(Silent("parentheses")), s(Silent("parentheses"))), l("  1", s(Silent("parentheses")), s(Silent("parentheses"))), l(")", s(Stmt), s(Stmt))],
+        },
+        Template {
+            name: "silent-record-colon",
+            above: false,
+            lines: vec![l("r = {", s(Record), s(Record)), l("  k:", s(Silent("record-value")), s(Silent("record-value"))), l("    1,", s(Record), s(Record)), l("}", s(Stmt), s(Stmt))],
+        },
+        Template {
+            name: "silent-params",
+            above: false,
+            lines: vec![l("h = (a,", s(Silent("parameter-list")), s(Silent("parameter-list"))), l("  b) => a", s(Stmt), s(Stmt))],
+        },
+        Template {
+            name: "silent-access",
+            above: false,
+            lines: vec![l("i = xs[", s(Silent("index-brackets")), None), l("0", s(Silent("index-brackets")), None), l("]", s(Stmt), s(Stmt))],
+        },
+        Template { name: "empty-list", above: false, lines: vec![l("e = [", s(Empty("list")), s(Empty("list"))), l("]", s(Stmt), s(Stmt))] },
+        Template { name: "empty-record", above: false, lines: vec![l("e = {", s(Empty("record")), s(Empty("record"))), l("}", s(Stmt), s(Stmt))] },
+    ]
+}
+
+#[derive(Clone, Copy, Debug, PartialEq, Eq)]
+struct Slot {
+    /// line index; usize::MAX = above the first line
+    line: usize,
+    eol: bool,
+    kind: K,
+}
+
+fn slots(t: &Template) -> Vec<Slot> {
+    let mut v = vec![];
+    if t.above {
+        v.push(Slot { line: usize::MAX, eol: false, kind: K::Stmt });
+    }
+    for (i, ln) in t.lines.iter().enumerate() {
+        if let Some(k) = ln.eol {
+            v.push(Slot { line: i, eol: true, kind: k });
+        }
+        if let Some(k) = ln.below {
+            v.push(Slot { line: i, eol: false, kind: k });
+        }
+    }
+    v
+}
+
+const TEXTS: [&str; 6] = ["//c{}", "// c{} with \"quotes\" and 'more'", "//c{} // nested // slashes", "// c{} \u{e9}\u{1f600}", "//   c{}   ", "//c{}[1, {2}]"];
+
+fn comment_text(n: usize) -> String {
+    TEXTS[n % TEXTS.len()].replace("{}", &n.to_string()).trim_end().to_string()
+}
+
+/// Render the template with comments in the chosen slots. Returns (source, [(comment, kind)]).
+fn render(t: &Template, chosen: &[Slot], double: bool) -> (String, Vec<(String, K)>) {
+    let mut out = String::new();
+    let mut placed = vec![];
+    let mut n = 0;
+    let mut next = |kind: K, placed: &mut Vec<(String, K)>| {
+        let c = comment_text(n);
+        n += 1;
+        placed.push((c.clone(), kind));
+        c
+    };
+    if let Some(s) = chosen.iter().find(|s| s.line == usize::MAX) {
+        out.push_str(&next(s.kind, &mut placed));
+        out.push('\n');
+        if double {
+            out.push_str(&next(s.kind, &mut placed));
+            out.push('\n');
+        }
+    }
+    for (i, ln) in t.lines.iter().enumerate() {
+        out.push_str(ln.text);
+        if let Some(s) = chosen.iter().find(|s| s.line == i && s.eol) {
+            out.push_str(" ");
+            out.push_str(&next(s.kind, &mut placed));
+        }
+        out.push('\n');
+        if let Some(s) = chosen.iter().find(|s| s.line == i && !s.eol) {
+            let indent: String = t.lines.get(i + 1).map(|l| l.text.chars().take_while(|c| *c == ' ').collect()).unwrap_or_default();
+            out.push_str(&indent);
+            out.push_str(&next(s.kind, &mut placed));
+            out.push('\n');
+            if double {
+                out.push_str(&indent);
+                out.push_str(&next(s.kind, &mut placed));
+                out.push('\n');
+            }
+        }
+    }
+    (out, placed)
+}
+
+fn judge(ctx: &Ctx, path: &str, src: &str, placed: &[(String, K)], out: &str, width: Option<usize>, tname: &str) {
+    let want = scan_comments(src);
+    let got = scan_comments(out);
+    if want == got {
+        return;
+    }
+    // Is the loss exactly the comments placed in slot-less positions (and nothing else wrong)?
+    let slotless: Vec<&(String, K)> = placed.iter().filter(|(_, k)| !k.has_slot()).collect();
+    let mut expected_if_only_slotless_lost: Vec<String> = want.clone();
+    expected_if_only_slotless_lost.retain(|c| !slotless.iter().any(|(t, _)| t == c));
+    if got == expected_if_only_slotless_lost && !slotless.is_empty() {
+        for (c, k) in slotless {
+            ctx.violation(Violation {
+                kind: "comment-lost".into(),
+                class: k.class(),
+                input: format!("[{}] {}", path, src),
+                expected: format!("comment {:?} survives", c),
+                observed: format!("missing from the output (all other comments intact): {}", out),
+                case: json!({"src": src, "width": width, "path": path}),
+            });
+        }
+        return;
+    }
+    ctx.violation(Violation {
+        kind: "comments-changed".into(),
+        class: format!("{}:{}", path, tname),
+        input: format!("{} @ width {:?}", src, width),
+        expected: format!("{:?}", want),
+        observed: format!("{:?}   [formatted: {}]", got, out),
+        case: json!({"src": src, "width": width, "path": path}),
+    });
+}
+
+fn check_case(ctx: &Ctx, t: &Template, chosen: &[Slot], double: bool, max_width: usize) {
+    let (src, placed) = render(t, chosen, double);
+    // the input must be accepted by the parser, otherwise the slot annotation is wrong
+    if parse_program(&src, true).is_err() {
+        ctx.machinery_error(format!("template {} with slots {:?} does not parse:\n{}", t.name, chosen, src));
+        return;
+    }
+    ctx.nontrivial(&src);
+    let mut seen = std::collections::BTreeSet::new();
+    let mut widths: Vec<Option<usize>> = (1..=max_width).map(Some).collect();
+    widths.push(None);
+    for w in widths {
+        ctx.count(1);
+        match fmt_lib(&src, w) {
+            Ok(out) => {
+                if seen.insert(out.clone()) {
+                    ctx.outcome("distinct-layout");
+                    judge(ctx, "lib", &src, &placed, &out, w, t.name);
+                }
+            }
+            Err(e) => ctx.violation(Violation {
+                kind: "format-fails".into(),
+                class: t.name.into(),
+                input: src.clone(),
+                expected: "formatted text".into(),
+                observed: e,
+                case: json!({"src": src, "width": w, "path": "lib"}),
+            }),
+        }
+    }
+    ctx.count(1);
+    match run_cli_format(&src) {
+        Ok(out) => judge(ctx, "cli", &src, &placed, &out, None, t.name),
+        Err(e) => ctx.violation(Violation {
+            kind: "format-fails".into(),
+            class: t.name.into(),
+            input: src.clone(),
+            expected: "blots --format succeeds".into(),
+            observed: e,
+            case: json!({"src": src, "width": null, "path": "cli"}),
+        }),
+    }
+    ctx.outcome("case");
+}
+
+/// Every commented program of the single-slot, pair and all-slots families (used by C07/C08).
+pub fn commented_programs(thorough: bool) -> Vec<String> {
+    let mut out = vec![];
+    for t in templates() {
+        let ss = slots(&t);
+        for s in &ss {
+            out.push(render(&t, &[*s], false).0);
+            if !s.eol {
+                out.push(render(&t, &[*s], true).0);
+            }
+        }
+        for i in 0..ss.len() {
+            for j in (i + 1)..ss.len() {
+                if thorough || (i + j) % 3 == 0 {
+                    out.push(render(&t, &[ss[i], ss[j]], false).0);
+                }
+            }
+        }
+        out.push(render(&t, &ss, false).0);
+        out.push(render(&t, &ss, true).0);
+    }
+    out
+}
+
+pub fn run(ctx: &Ctx, replay: Option<&J>) -> i32 {
+    if let Some(r) = replay {
+        let src = r["case"]["src"].as_str().unwrap_or("");
+        let width = r["case"]["width"].as_u64().map(|w| w as usize);
+        let out = if r["case"]["path"].as_str() == Some("cli") { run_cli_format(src) } else { fmt_lib(src, width) };
+        println!("source:\n{}\nformatted ({:?}):\n{}", src, width, out.clone().unwrap_or_else(|e| e));
+        let want = scan_comments(src);
+        let got = out.map(|o| scan_comments(&o)).unwrap_or_default();
+        println!("comments in:  {:?}\ncomments out: {:?}", want, got);
+        if want != got {
+            println!("VIOLATION property=C09 replay=<replayed>");
+            return 1;
+        }
+        return 0;
+    }
+    let ts = templates();
+    let thorough = !ctx.quick();
+    let max_width = if thorough { 70 } else { 45 };
+    struct Job {
+        t: usize,
+        chosen: Vec<Slot>,
+        double: bool,
+    }
+    let mut jobs: Vec<Job> = vec![];
+    for (ti, t) in ts.iter().enumerate() {
+        let ss = slots(t);
+        jobs.push(Job { t: ti, chosen: vec![], double: false });
+        for s in &ss {
+            jobs.push(Job { t: ti, chosen: vec![*s], double: false });
+            if !s.eol {
+                jobs.push(Job { t: ti, chosen: vec![*s], double: true });
+            }
+        }
+        for i in 0..ss.len() {
+            for j in (i + 1)..ss.len() {
+                jobs.push(Job { t: ti, chosen: vec![ss[i], ss[j]], double: false });
+            }
+        }
+        if thorough {
+            for i in 0..ss.len() {
+                for j in (i + 1)..ss.len() {
+                    for k in (j + 1)..ss.len() {
+                        jobs.push(Job { t: ti, chosen: vec![ss[i], ss[j], ss[k]], double: (i + j + k) % 2 == 0 });
+                    }
+                }
+            }
+        }
+        jobs.push(Job { t: ti, chosen: ss.clone(), double: false });
+        jobs.push(Job { t: ti, chosen: ss.clone(), double: true });
+        // all slots that have an AST slot
+        let with_slot: Vec<Slot> = ss.iter().filter(|s| s.kind.has_slot()).cloned().collect();
+        jobs.push(Job { t: ti, chosen: with_slot, double: false });
+    }
+    par_for(jobs.len(), |i| {
+        let j = &jobs[i];
+        check_case(ctx, &ts[j.t], &j.chosen, j.double, max_width);
+    });
+    crate::proc::cleanup_scratch();
+    ctx.set("templates", json!(ts.iter().map(|t| t.name).collect::<Vec<_>>()));
+    ctx.set("cases", json!(jobs.len()));
+    ctx.set("max_width", json!(max_width));
+    let (s1, _) = render(&ts[1], &slots(&ts[1]), false);
+    ctx.sample(json!({"template": ts[1].name, "all_slots": s1}));
+    let (s2, _) = render(&ts[4], &slots(&ts[4])[1..3], true);
+    ctx.sample(json!({"template": ts[4].name, "two_slots_doubled": s2}));
+    ctx.require_outcome("case", 300);
+    ctx.require_outcome("distinct-layout", 600);
+    ctx.assume("widths 1..45/70 and the default; comment positions are those annotated in the 18 line templates (every position the grammar admits a comment in for statements, lists, records, do-blocks, plus the silent-NEWLINE and empty-container positions)");
+    finish(
+        ctx,
+        "exploration",
+        "18 line templates (statements, lists with/without trailing comma, records, do-blocks, nested containers, silent-NEWLINE positions, empty containers) x comment slots (end of line / own line, annotated with the placement kind): the empty set, every single slot (also doubled), every pair, thorough: every triple, all slots, all slots doubled x every width 1..45/70 + default through format_blots (native shim) and once through blots --format; comment sequences extracted by an independent quote-aware scan; distinct = distinct commented sources",
+        true,
+        None,
+    )
 }
